@@ -55,6 +55,9 @@ func runSelftest(c *Ctx, verifDir string) {
 	add(filepath.Join(verifDir, "neutral_pool5", "*", "*.patch"), "pool")
 	// additions, moves and renames (DESIGN §8.17)
 	add(filepath.Join(verifDir, "neutral_pool6", "*", "*.patch"), "pool")
+	// well-made additions of new code — types, caches, book-keeping state, small features (DESIGN §8.19);
+	// those that end in "not decided" are listed per property in limit-<x>.json
+	add(filepath.Join(verifDir, "neutral_pool7", "*", "*.patch"), "pool")
 	if len(variants) == 0 {
 		return
 	}
@@ -95,6 +98,9 @@ func runSelftest(c *Ctx, verifDir string) {
 					} else if strings.Contains(path, "neutral_pool5") {
 						limFile = "/nonexistent"
 					}
+				}
+				if strings.Contains(path, "neutral_pool7") {
+					limFile = filepath.Join(filepath.Dir(path), "limit-"+strings.TrimSuffix(filepath.Base(path), ".patch")+".json")
 				}
 				if lim, err := os.ReadFile(limFile); err == nil {
 					var l struct {
